@@ -22,10 +22,10 @@ import (
 func init() {
 	core.Register(&core.Prop{
 		ID: "C20",
-		Rule: "spelling phase (each system is also paired with a near twin - one numeric parameter negated or nudged by 1e-6 - for which Equal and NewTransform==nil must agree and a nil transformer is accepted only if both definitions project a position to the same coordinates): case = one generated system (Mercator_1SP, Lambert_Conformal_Conic_2SP, Albers_Conic_Equal_Area, Equidistant_Conic, Transverse_Mercator or plain geographic; random parameters; spheroid by (a, 1/f); TOWGS84 with 3/7 terms or none; linear unit metre / foot / US survey foot) printed by the harness as a PROJ.4 string and as WKT (ESRI parameter names, and for the conics also the OGC/GDAL names latitude_of_center / longitude_of_center), transformed at 4 usable positions from a fresh WGS84 source (definitions with TOWGS84) or from the same-spheroid geographic system spelled both ways (definitions without): forward results must agree within 1e-6 m, inverse within 1e-11 deg; " +
+		Rule: "spelling phase (each system is also paired with a near twin - one numeric parameter negated or nudged by 1e-6 - for which Equal and NewTransform==nil must agree and a nil transformer is accepted only if both definitions project a position to the same coordinates): case = one generated system (Mercator_1SP, Lambert_Conformal_Conic_2SP, Albers_Conic_Equal_Area, Equidistant_Conic, Transverse_Mercator or plain geographic; random parameters; spheroid by (a, 1/f); TOWGS84 with 3/7 terms or none; linear unit metre / foot / US survey foot) printed by the harness as a PROJ.4 string and as WKT (ESRI parameter names, and for the conics also the OGC/GDAL names latitude_of_center / longitude_of_center), transformed at 4 usable positions from a fresh WGS84 source (definitions with TOWGS84; half of those without) or from the same-spheroid geographic system spelled both ways (the other half of the definitions without): forward results must agree within 1e-6 m, inverse within 1e-11 deg; " +
 			"registry phase: registered names vs their published definition strings (Equal, identical outputs), same text parsed twice (also after one of the two references has been used in transformations), and NewTransform == nil exactly when Equal(…, 3) for pairs that are identical or differ by 1 ulp / 1e-9 / name / units / datum-parameter count; a .prj written next to a generated shapefile must come back from (*shp.Decoder).SR() equal to proj.Parse of the text; " +
 			"an evaluation is one position or one pair judged; non-trivial = definition with a non-metre unit, a TOWGS84 clause or the OGC spelling; distinct by definition hash",
-		Assumptions: []string{"a WKT DATUM without TOWGS84 states a WGS84-equivalent datum while +a +rf without +datum states none (two different statements): such definitions are compared from the geographic system on the same spheroid, itself spelled both ways", "false origin: PROJ.4 metres = WKT value x linear unit"},
+		Assumptions: []string{"a WKT DATUM (with a name that is not a built-in datum) without TOWGS84 and +a +rf without +datum both state no datum shift: such definitions are compared from the geographic system on the same spheroid, itself spelled both ways, and from WGS84", "false origin: PROJ.4 metres = WKT value x linear unit"},
 		Phases: []core.Phase{
 			{Name: "spelling", NumCases: func(t string) int {
 				if t == "thorough" {
@@ -42,7 +42,7 @@ func init() {
 		},
 		Run: run,
 		Floors: func(t string) map[string]int64 {
-			return map[string]int64{"spelling.esri": 5000, "spelling.ogc": 1000, "section_order.unit_before_parameters": 1000, "unit.foot": 1000, "unit.us_foot": 1000, "towgs84.3": 1000, "towgs84.7": 1000, "towgs84.none": 1000,
+			return map[string]int64{"spelling.esri": 5000, "spelling.ogc": 1000, "section_order.unit_before_parameters": 1000, "unit.foot": 1000, "unit.us_foot": 1000, "towgs84.3": 1000, "towgs84.7": 1000, "towgs84.none": 1000, "towgs84.none_from_wgs84": 300,
 				"proj.merc": 300, "proj.lcc": 300, "proj.aea": 300, "proj.eqdc": 300, "proj.tmerc": 300, "proj.longlat": 300, "registry.names": 100, "registry.equal_pairs": 500, "registry.unequal_pairs": 300, "registry.prj_files": 50, "twin.negated": 2000, "names.short_empty_or_unusual": 1000, "wkt.authority_on_nested_objects": 1000, "unit.other_named_factor": 1000, "layout.blank_after_commas": 1000, "twin.nudged": 1000}
 		},
 	})
@@ -371,6 +371,12 @@ func runSpelling(c *core.Ctx) {
 		pr = pairing{wgs84Geo, wgs84Geo}
 	} else {
 		pr = pairing{s.geo4, s.geoWKT}
+		if r.Bool() {
+			// no datum shift stated in either spelling: that is the same statement, so the two must
+			// also agree when reached from WGS84 (whatever the library does about the ellipsoids)
+			pr = pairing{wgs84Geo, wgs84Geo}
+			c.Count("towgs84.none_from_wgs84")
+		}
 	}
 	twinCheck(c, s)
 	for k := 0; k < 4; k++ {
